@@ -125,6 +125,7 @@ def main() -> int:
                   f"tests_pass={res.get('tests_pass')} {res['errors']}", flush=True)
             results[res["id"]] = {"status": status, "tier": tier, "caught": res["caught"], "missed": res["missed"], "quiet": res.get("quiet_ok", []),
                                   "tests_pass": res.get("tests_pass"), "errors": [e[:200] for e in res["errors"]]}
+            store.write_text(json.dumps(results, indent=1, sort_keys=True))       # keep what is known so far
     store.write_text(json.dumps(results, indent=1, sort_keys=True))
     lines = ["# Detection record (generated by selftest/mutate.py)", "",
              "| change | existing tests pass | checks that raised VIOLATION | checks expected to alarm that stayed quiet | "
